@@ -8,7 +8,7 @@ CHECKS = {
  "C01": ("seqmc", "model_checking", "§8 C01, §4",
    "explicit-state BFS over operation histories on the real crate, String reference model, exact canonical state keys",
    "Every operation history over the stated alphabets (3-4 handles, chars of all four UTF-8 widths, texts straddling the inline limit, every byte index in the index profile) up to the stated depth is executed on the real crate next to std::string::String; text, length, emptiness, returned values and panics are compared after every step. Exhaustive within the bounds, so a divergence that needs a particular history (shared buffer, stale bytes, exact-16 inline) cannot hide inside the bound.",
-   "Bounded: depth, pool size, alphabet (see evidence). Reference = std String executed side by side. 64-bit layout only."),
+   "Bounded: depth, pool size, alphabet (see evidence). Reference = std String executed side by side. Native engine: 64-bit layout; the thorough tier adds the big-length exploration (texts around 2^24 bytes, every sequence of <= 2 operations) hosted by Miri for a little- and a big-endian 32-bit target (DESIGN section 15)."),
  "C02": ("seqmc", "model_checking", "§8 C02, §4",
    "explicit-state BFS; non-target handles bit-identical before/after every step",
    "Same state graph, including failing and panicking operations; after every step every handle that was not the target must be unchanged in text, length, pointer, capacity and raw words; 'static bytes are compared with pristine copies; deep share profile (4 handles on one buffer).",
@@ -16,7 +16,7 @@ CHECKS = {
  "C03": ("seqmc", "model_checking", "§8 C03, §4.2",
    "explicit-state BFS with a shadow heap (guards, poison, quarantine) behind the crate's allocator hooks",
    "Every step of every explored history is audited against a shadow heap: reference count equals live handles, live blocks equal referenced buffers, every noted access lies inside a live block, layouts are repeated exactly, guard zones and freed-block poison are intact; every state is closed in all rotation orders and must leave nothing allocated.",
-   "Bounded as C01. Accesses are observed at the hook sites (header/as_str/as_bytes/as_slice_mut/realloc/dealloc) plus guard/poison audits for unannounced writes."),
+   "Bounded as C01. Accesses are observed at the hook sites (header/as_str/as_bytes/as_slice_mut/realloc/dealloc) plus guard/poison audits for unannounced writes; a page-guard pass (reads) and, for the 32-bit-only length-on-heap layout, the big-length exploration hosted by Miri for i686 and powerpc (quick: every single operation from 17 roots; thorough: every sequence of two; DESIGN section 15)."),
  "C04": ("loomc", "model_checking", "§8 C04, §5",
    "stateless model checking with loom (DPOR over all schedules and C11 visibility choices) of the real crate built with --cfg loom; heap blocks mapped to loom cells through the access hooks",
    "All programs of the listed sets (2-3 threads, 0-3 operations each from a 17-operation alphabet, 6 set-up variants incl. threads owning every reference, differing lengths on one buffer, a handle shared by reference) are explored by loom to completion (unbounded or under the stated preemption bound). Per execution: every thread reads what its own operations produce sequentially; every buffer read/write/move/release noted by the crate is ordered by happens-before (loom cell per heap block); no use after free/double free/layout mismatch; counts equal handles after the joins; nothing allocated at the end.",
